@@ -1,30 +1,24 @@
 package c03
 
 import (
-	"encoding/json"
 	"fmt"
 	"os"
+	"syscall"
 	"testing"
-
-	"wa-lang.org/wa/zverif/harness/core"
 )
 
-func TestDbg(t *testing.T) {
-	rf, err := core.LoadReplay(os.Getenv("DBG_REPLAY"))
-	if err != nil {
-		t.Fatal(err)
-	}
-	var p payload
-	json.Unmarshal(rf.Case, &p)
-	if p.Kind == "program" {
-		defer theWorker().Close()
-		k, w := replay("", rf.Case)
-		fmt.Println(k, w)
-		return
-	}
-	code, _, _, _ := translate(p.Case.Wat)
-	os.WriteFile("/tmp/c3scratch/dbg_app.c", code, 0o644)
-	os.WriteFile("/tmp/c3scratch/dbg.wat", []byte(p.Case.Wat), 0o644)
-	k, w := replay("", rf.Case)
-	fmt.Println(k, w)
+func cpu() float64 {
+	var ru, rc syscall.Rusage
+	syscall.Getrusage(syscall.RUSAGE_SELF, &ru)
+	syscall.Getrusage(syscall.RUSAGE_CHILDREN, &rc)
+	f := func(t syscall.Timeval) float64 { return float64(t.Sec) + float64(t.Usec)/1e6 }
+	return f(ru.Utime) + f(ru.Stime) + f(rc.Utime) + f(rc.Stime)
+}
+
+func TestDbgProg(t *testing.T) {
+	defer theWorker().Close()
+	src, _ := os.ReadFile(os.Getenv("DBG_SRC"))
+	c0 := cpu()
+	k, w, n := CompareProgramSource("p.wa", string(src))
+	fmt.Printf("RESULT %q %d %s cpu(self+gcc+prog)=%.2f\n", k, n, head(w, 300), cpu()-c0)
 }
